@@ -54,6 +54,8 @@ EXTRA_TEXTS = ['foo == a["b"]', 'foo != a[ `b` ]', 'a["b"] in foo', 'foo contain
                'any xs as x { x is empty}', 'any xs as x { x == `1`}', '(a == 1)', '(a == 1 )', '( a == 1)', 'a == 1,', 'a == 1]', 'a == 1{', 'a == 1"', 'a == 1(', 'a == 1\t', 'a == 1\n',
                'a == 1\r', 'a == 1.5}', 'a == -1)', '(a == b)', '(a == "b")', 'any xs as x { (x == 1) }', 'any xs as x { (x == 1)}', 'any xs as x {(x == 1)}', 'all xs as x{x == 1 }',
                'all xs as x { x == 1 }}', 'all xs as x { x == 1 } ', 'all xs as _ ,v { v == 1 }', 'all xs as k,v{ v == 1 and k == 0 }', '1 in a}', 'a == 1 }',
+               # characters outside ASCII at the edges and between tokens (each class symbol is tried with many members)
+               '☃foo == 1', 'foo == 1☃', 'foo ☃== 1', 'foo == ☃', 'foo == "a☃b"', 'foo == `☃`', 'foo☃ == 1', 'a["☃"] == 1', 'a.☃ == 1', '☃', ' ☃ ', 'foo == 1 ☃', 'é == 1', 'foo == é',
                # binding lists
                'any xs as _, _ { a == 1 }', 'any xs as _ { a == 1 }', 'any xs as _,v { v == 1 }', 'any xs as v,_ { v == 1 }', 'any xs as v, v { v == 1 }', 'any xs as { a == 1 }',
                'any xs as 1 { a == 1 }', 'any xs as a.b { a == 1 }', 'any xs as "v" { v == 1 }', 'any xs as v w { v == 1 }', 'any xs as v, { v == 1 }', 'any xs as ,v { v == 1 }',
